@@ -146,3 +146,10 @@ pub fn nav_all_commands() -> Vec<String> {
 
 /// key codes MathCAT knows plus some it does not
 pub const KEYS: &[usize] = &[0x25, 0x27, 0x26, 0x28, 0x0D, 0x20, 0x24, 0x23, 0x08, 0x1B, 0x30, 0x31, 0x35, 0x39, 0x41, 0x5A, 0, 9999];
+
+/// MathML expressions extracted from the repository's own test files (tests/**/*.rs), one per line; a versioned data
+/// file (regenerate with scripts/extract_corpus.py). Still a finite pool: the input space is sampled, not explored.
+pub fn corpus() -> &'static Vec<&'static str> {
+    static CORPUS: std::sync::OnceLock<Vec<&'static str>> = std::sync::OnceLock::new();
+    CORPUS.get_or_init(|| include_str!("../pools/corpus.txt").lines().filter(|l| !l.trim().is_empty()).collect())
+}
